@@ -162,7 +162,7 @@ int main(int argc, char *argv[])
     const bool w_init_defined = (affinity_filename != "");
     if (w_init_defined)
     {
-        read_affinity_data(affinity_filename, assortative, affinity);
+        read_affinity_data(affinity_filename, assortative, affinity, nof_groups);
     }
 
     // Prepare output data
